@@ -1026,4 +1026,8 @@ theorem session_congr (fuel : Nat) : ∀ (gs₁ gs₂ : List String) (st : State
   | _ :: _, [], _, hh => by cases hh
 
 
+theorem sameLocTokens_refl : ∀ (gs : List String), SameLocTokens gs gs
+  | [] => trivial
+  | _ :: gs => ⟨rfl, sameLocTokens_refl gs⟩
+
 end Ruschm.FrontSpec
